@@ -57,10 +57,34 @@ def run(ctx):
                 if '"Fetch"' in x["event"]:
                     ctx.violation("trace07s:%s" % sig(x), "unlimited cache: fetch differs from specification at %s" % x["event"][:160], x["path"])
         os.remove(t)
+    oversize(ctx, exe)
     ctx.extra["rule"] = ("executions = Reset-delimited operation sequences run against the real cache; "
                          "distinct = distinct event texts (operation, arguments, result) among the first 4000 events of each driver run")
     import front
     front.run(ctx)
+
+
+def oversize(ctx, exe):
+    """process-shared cache: stores whose value does not fit into the segment (dropped) must not leave
+    the superseded value retrievable (defect fixed by 68598e0; kept as a permanent scenario)."""
+    scripts = [
+        "store 1 5 0\nfetch 1\nbigstore 1 5 3000000\nfetch 1\nbigstore 2 5 600000\nfetch 2\nfetch 1\nbigstore 3 5 100000\nfetch 3\nfetch 1\n",
+        "bigstore 1 5 50000\nfetch 1\nbigstore 1 5 2000000\nfetch 1\nstore 1 5 1 2\nfetch 1\nrise 2\nfetch 1\nbigstore 2 5 1200000\nfetch 2\n",
+    ]
+    if not ctx.quick:
+        for size in (100, 60000, 300000, 520000, 1048576, 5000000):
+            scripts.append("store 1 9 0\nbigstore 1 9 %d\nfetch 1\nbigstore 2 9 %d\nfetch 2\nfetch 1\nclear\nbigstore 1 9 %d\nfetch 1\n" % (size, size, size))
+    for i, sc in enumerate(scripts):
+        t = os.path.join(ctx.work, "oversize-%d.ndjson" % i)
+        rc, out, err = ctx.run_harness(exe, ("script", "process", 0, 3), trace=t, stdin=sc, timeout=300)
+        if rc != 0:
+            ctx.undecided.append("oversize script failed rc=%s %s" % (rc, err[-300:]))
+            continue
+        if i == 0:
+            ctx.sample({"oversize-script": open(t).read().splitlines()[:6]})
+        for x in ctx.validate("Cache/CacheTrace07.tla", "CacheTrace07.cfg", t):
+            ctx.violation("oversize-store-keeps-old-value", "process-shared cache serves superseded data after a store that did not fit: %s" % x["event"][:160], x["path"])
+        os.remove(t)
 
 
 def sig(x):
